@@ -382,6 +382,7 @@ def compose(template_text, unit, canary=None, canary_loop=None):
             "id": " :: ".join([d["file"]] + d["path"]), "name": name, "file": d["file"], "path": d["path"],
             "tags": d["tags"], "line_start": start, "line_end": line - 1, "body_start": bstart,
             "log": r["log"], "nloops": r["nloops"], "nclosures": r["nclosures"], "k": k,
+            "parent": " :: ".join([d["file"]] + d["path"][:-1]), "siblings": r.get("siblings"),
             "nspec": len(re.findall(r"[^,\s][^,]*,|[^,\s][^,]*$", vspec)) if vspec else 0,
         })
     out.text = "".join(parts)
